@@ -134,7 +134,11 @@ func (r *groupByMergedGroupResultSet) next() {
 			if item.gc != nil {
 				r.alt = append(r.alt, item)
 			} else {
-				r.err = item.grs.Err()
+				// keep the first error: an input that ended cleanly must not
+				// erase the error of an input that failed
+				if err := item.grs.Err(); err != nil && r.err == nil {
+					r.err = err
+				}
 				item.grs.Close()
 			}
 		} else {
